@@ -53,7 +53,7 @@ var pureExternalPrefixes = []string{
 	"github.com/ethereum/go-ethereum/common.", "(github.com/ethereum/go-ethereum/common.", "github.com/ethereum/go-ethereum/crypto.",
 	"github.com/ethereum/go-ethereum/common/hexutil.", "(*github.com/ethereum/go-ethereum/common.", "math/rand.", "os.Getenv", "sort.Search",
 	"(*github.com/tendermint/tendermint/abci/types.", "(github.com/tendermint/tendermint/abci/types.", "(*math/big.Float).", "math/big.NewFloat",
-	"github.com/ethereum/go-ethereum/rlp.", "unicode/utf8.", "regexp.", "(*regexp.", "github.com/tendermint/tendermint/rpc/core.",
+	"github.com/ethereum/go-ethereum/rlp.", "unicode/utf8.", "regexp.", "(*regexp.", "github.com/tendermint/tendermint/rpc/core.", "(*github.com/ethereum/go-ethereum/core/types.", "(github.com/ethereum/go-ethereum/core/types.",
 }
 
 func isPureExternal(name string) bool {
@@ -174,7 +174,19 @@ func (f *Frame) externalModel(fn *ssa.Function, args []Val, in ssa.Instruction, 
 			nv := ex.vc.Fresh("unm_v", SInt)
 			f.bigWrite(z, nv, st)
 			return ex.havocVal("big_err", rt), true
-		case "Exp", "Sqrt", "Lsh", "Rsh", "And", "Or", "Xor", "Not", "GCD", "ModInverse", "SetBit", "Rand", "DivMod", "QuoRem", "MulRange", "Binomial", "ModSqrt", "AndNot":
+		case "Exp":
+			f.nonNil(z, in, st, "nil receiver")
+			xv, yv := rd(1), rd(2)
+			nv := ex.vc.Fresh("big_Exp", SInt)
+			if len(args) > 3 && args[3].T == "0" {
+				// no modulus: an uninterpreted power function, positive for a positive base
+				fn := ex.reg.UFun("big_exp", []Sort{SInt, SInt}, SInt)
+				ex.vc.Assume(eq(nv, app(fn, xv, yv)))
+				ex.vc.Assume(implies("(> "+xv+" 0)", "(> "+nv+" 0)"))
+			}
+			f.bigWrite(z, nv, st)
+			return ret(), true
+		case "Sqrt", "Lsh", "Rsh", "And", "Or", "Xor", "Not", "GCD", "ModInverse", "SetBit", "Rand", "DivMod", "QuoRem", "MulRange", "Binomial", "ModSqrt", "AndNot":
 			f.nonNil(z, in, st, "nil receiver")
 			for k := 1; k < len(args); k++ {
 				if args[k].GT != nil {
@@ -193,6 +205,22 @@ func (f *Frame) externalModel(fn *ssa.Function, args []Val, in ssa.Instruction, 
 		return Val{}, false
 	}
 	switch name {
+	case "math.Ceil", "math.Floor", "math.Round", "math.Trunc":
+		use("T-FLOAT float64 arithmetic is uninterpreted (f64_* functions of their arguments)")
+		fn := ex.reg.UFun("f64_"+strings.ToLower(name[5:]), []Sort{SF64}, SF64)
+		return Val{T: app(fn, args[0].T), S: SF64, GT: rt}, true
+	case "(*math/big.Float).Int":
+		// Int(z) returns z (a fresh non-nil *big.Int when z is nil) holding the truncated value (floats uninterpreted: arbitrary)
+		use("T-FLOAT big.Float is uninterpreted; (*big.Float).Int returns a non-nil integer with an arbitrary value")
+		r := ex.alloc(st, "floatint")
+		nv := ex.vc.Fresh("floatint_v", SInt)
+		res := r
+		if len(args) > 1 && args[1].T != "0" && args[1].LV == nil {
+			res = ex.vc.Define("fint", SInt, ite(eq(args[1].T, "0"), r, args[1].T))
+		}
+		ex.setH(st, "H:Int", ArrS(SInt, SInt), sto(ex.H(st, "H:Int", ArrS(SInt, SInt)), res, nv))
+		tup := rt.(*types.Tuple)
+		return Val{S: "Tuple", GT: rt, Tuple: []Val{{T: res, S: SInt, GT: tup.At(0).Type()}, ex.havocVal("acc", tup.At(1).Type())}}, true
 	case "math/big.NewInt":
 		use("T-BIG math/big.Int methods (mathematical integers)")
 		r := ex.alloc(st, "bigint")
@@ -231,13 +259,32 @@ func (f *Frame) externalModel(fn *ssa.Function, args []Val, in ssa.Instruction, 
 			return Val{T: app("int_str", args[0].T), S: SStr, GT: rt}, true
 		}
 	case "sort.Strings", "sort.Ints", "sort.Slice", "sort.SliceStable", "sort.Sort", "sort.Stable":
-		use("T-SORT sort.* permutes the slice in place (contents havoc'd)")
+		use("T-SORT sort.* permutes the elements of the slice in place (the result is a permutation of the old contents; the order itself is not modelled)")
 		a := args[0]
-		if isSliceSort(a.S) {
+		if !isSliceSort(a.S) && a.S == SIface {
+			// sort.Slice(x interface{}, less): find the slice behind the interface
+			if payload, ok := staticIfacePayload(in.(ssa.CallInstruction).Common().Args[0]); ok {
+				a = f.val(payload, st)
+			}
+		}
+		if isSliceSort(a.S) && a.GT != nil {
 			sl := a.GT.Underlying().(*types.Slice)
 			es := ex.reg.SortOf(sl.Elem())
 			hn, hs := ex.sliceHeap(es)
-			f.havocLocs(st, []Loc{{Heap: hn, HSort: hs, Base: app("arr_"+string(a.S), a.T), Field: -1}})
+			h := ex.H(st, hn, hs)
+			arr := app("arr_"+string(a.S), a.T)
+			off := app("off_"+string(a.S), a.T)
+			ln := app("len_"+string(a.S), a.T)
+			oldc := ex.vc.Define("sort_old", ArrS(SInt, es), sel(h, arr))
+			newc := ex.vc.Fresh("sort_new", ArrS(SInt, es))
+			ex.vc.n++
+			pf := ex.reg.UFun(fmt.Sprintf("sort_p_%d_%s", ex.vc.n, sanitize(shortFn(ex.top))), []Sort{SInt}, SInt)
+			pi := ex.reg.UFun(fmt.Sprintf("sort_pinv_%d_%s", ex.vc.n, sanitize(shortFn(ex.top))), []Sort{SInt}, SInt)
+			// new[off+i] == old[off+p(i)], p a bijection on [0,len); cells outside [off,off+len) unchanged
+			ex.vc.Assume(fmt.Sprintf("(forall ((qi Int)) (! (=> (and (<= 0 qi) (< qi %s)) (and (<= 0 (%s qi)) (< (%s qi) %s) (= (%s (%s qi)) qi) (= (select %s (+ %s qi)) (select %s (+ %s (%s qi)))))) :pattern ((select %s (+ %s qi))) :pattern ((%s qi))))", ln, pf, pf, ln, pi, pf, newc, off, oldc, off, pf, newc, off, pf))
+			ex.vc.Assume(fmt.Sprintf("(forall ((qj Int)) (! (=> (and (<= 0 qj) (< qj %s)) (and (<= 0 (%s qj)) (< (%s qj) %s) (= (%s (%s qj)) qj) (= (select %s (+ %s (%s qj))) (select %s (+ %s qj))))) :pattern ((%s qj)) :pattern ((select %s (+ %s qj)))))", ln, pi, pi, ln, pf, pi, newc, off, pi, oldc, off, pi, oldc, off))
+			ex.vc.Assume(fmt.Sprintf("(forall ((qk Int)) (! (=> (or (< qk %s) (>= qk (+ %s %s))) (= (select %s qk) (select %s qk))) :pattern ((select %s qk))))", off, off, ln, newc, oldc, newc))
+			ex.setH(st, hn, hs, sto(h, arr, newc))
 		} else {
 			f.havocAll(st)
 		}
@@ -257,10 +304,55 @@ func (f *Frame) externalModel(fn *ssa.Function, args []Val, in ssa.Instruction, 
 		return Val{T: "(< " + args[0].T + " " + args[1].T + ")", S: SBool, GT: rt}, true
 	case "(time.Time).Equal":
 		return Val{T: eq(args[0].T, args[1].T), S: SBool, GT: rt}, true
+	case "(time.Time).AddDate":
+		use("T-TIME time.Time is an integer instant; AddDate/Add/Sub/Unix are uninterpreted functions of their arguments (AddDate: identity for 0,0,0 and not earlier for non-negative arguments)")
+		fn := ex.reg.UFun("time_adddate", []Sort{SInt, SInt, SInt, SInt}, SInt)
+		t := ex.vc.Define("adddate", SInt, app(fn, args[0].T, args[1].T, args[2].T, args[3].T))
+		ex.vc.Assume(implies(and(eq(args[1].T, "0"), eq(args[2].T, "0"), eq(args[3].T, "0")), eq(t, args[0].T)))
+		ex.vc.Assume(implies(and("(>= "+args[1].T+" 0)", "(>= "+args[2].T+" 0)", "(>= "+args[3].T+" 0)"), "(>= "+t+" "+args[0].T+")"))
+		return Val{T: t, S: SInt, GT: rt}, true
+	case "(time.Time).Add":
+		use("T-TIME time.Time is an integer instant; AddDate/Add/Sub/Unix are uninterpreted functions of their arguments (AddDate: identity for 0,0,0 and not earlier for non-negative arguments)")
+		fn := ex.reg.UFun("time_add", []Sort{SInt, SInt}, SInt)
+		return Val{T: app(fn, args[0].T, args[1].T), S: SInt, GT: rt}, true
+	case "(time.Time).Sub":
+		fn := ex.reg.UFun("time_sub", []Sort{SInt, SInt}, SInt)
+		v := ex.havocVal("tsub", rt)
+		ex.vc.Assume(eq(v.T, app("wrap_s64", app(fn, args[0].T, args[1].T))))
+		return v, true
+	case "(time.Time).Unix", "(time.Time).UnixNano":
+		fn := ex.reg.UFun("time_"+strings.ToLower(name[strings.LastIndex(name, ".")+1:]), []Sort{SInt}, SInt)
+		v := ex.havocVal("tunix", rt)
+		ex.vc.Assume(eq(v.T, app("wrap_s64", app(fn, args[0].T))))
+		return v, true
 	case "(time.Time).UTC", "(time.Time).Local", "(time.Time).Round":
 		return Val{T: args[0].T, S: SInt, GT: rt}, true
 	}
+	// nil-safe protobuf getters of tendermint's abci types: Get<Field>() is a field read
+	if strings.HasPrefix(name, "(*github.com/tendermint/tendermint/abci/types.") && strings.Contains(name, ").Get") && len(args) == 1 {
+		m := name[strings.Index(name, ").Get")+5:]
+		if pt, ok := args[0].GT.Underlying().(*types.Pointer); ok {
+			if si := ex.reg.StructInfoOf(pt.Elem()); si != nil {
+				for _, fl := range si.Fields {
+					if fl.Name == m && ex.reg.SortOf(rt) == fl.Sort {
+						use("T-TM tendermint abci/types getters return their fields (zero value for a nil receiver)")
+						var cur string
+						if args[0].LV != nil {
+							cur = app(fl.Acc, ex.loadLV(st, args[0].LV))
+						} else {
+							hn, hs := ex.heapOfType(pt.Elem())
+							cur = ite(eq(args[0].T, "0"), ex.reg.ZeroValue(fl.T), app(fl.Acc, sel(ex.H(st, hn, hs), args[0].T)))
+						}
+						return Val{T: ex.vc.Define("get"+m, fl.Sort, cur), S: fl.Sort, GT: rt}, true
+					}
+				}
+			}
+		}
+	}
 	if isPureExternal(name) {
+		if ex.P.ContractFor(fn) != nil {
+			return Val{}, false // an explicit (assumed) contract wins over the generic T-PURE havoc
+		}
 		use("T-PURE standard-library / logging helpers neither panic nor touch verified state (" + pkgOfName(name) + ")")
 		v := ex.havocVal("ext", rt)
 		return v, true
